@@ -1322,106 +1322,101 @@ def _is_call_on_self(e, name):
 @rule('C24.jacreset', floor=4)
 def jacreset(repo, out):
     """A relevance-pruned jacobian is dropped whenever the relevance object or its activation changed: all three _get_jacobian siblings reset, unconditionally (but for the coloring jacobian), the very attribute whose None-ness triggers the rebuild; _relevance_changed answers True when identity or activation differ."""
+    caches = ('self._jacobian', 'self._jac_wrapper')
     for rel, qn in JAC_OWNERS:
         fn = repo.func(rel, qn)
         g = cfgm.build(fn)
-        tests = [n for n in g.nodes if n.kind == 'test' and not n.tag and isinstance(n.ast, ast.If) and
-                 any(_is_call_on_self(c, '_relevance_changed') for c in astx.calls(n.ast.test))]
-        if len(tests) != 1:
-            out.unsure(fn, fn.node, f'expected one `if self._relevance_changed() ...` test, found {len(tests)}')
+        chgs = [c for c in astx.calls(fn.node) if _is_call_on_self(c, '_relevance_changed')]
+        if len(chgs) != 1:
+            out.unsure(fn, fn.node, f'expected one call of self._relevance_changed(), found {len(chgs)}')
             continue
-        t = tests[0].ast
-        chg = [c for c in astx.calls(t.test) if _is_call_on_self(c, '_relevance_changed')][0]
-        resets = [st for st in t.body if isinstance(st, ast.Assign) and isinstance(st.value, ast.Constant)
-                  and st.value.value is None]
-        attrs = {astx.path(x) for st in resets for x in st.targets}
-        if not resets or t.orelse:
-            out.unsure(fn, t, 'the relevance-change branch does not reset a cached attribute to None')
-            continue
-        # (1) the reset happens whenever relevance changed and the jacobian is not the coloring jacobian
-        sparsity = [c for c in astx.calls(t.test) if astx.call_name(c) == 'isinstance' and len(c.args) == 2
-                    and astx.mentions(c.args[1], '_ColSparsityJac')]
+        chg = chgs[0]
         preset = {astx.dump(chg): True}
-        for c in sparsity:
-            preset[astx.dump(c)] = False
-        vals = eval_all(t.test, {}, preset=preset)
-        if vals != {True}:
-            out.bad(fn, t, 'the cached jacobian is kept although the relevance object/activation changed '
-                    '(the reset also depends on something else): sub-jacobians pruned for the previous '
-                    'of/wrt stay missing and the next total derivative silently gets 0 for them',
-                    key='jac-reset-conditional')
-            continue
-        # _relevance_changed() consumes the change: it must be evaluated first
-        first = t.test
-        while isinstance(first, ast.BoolOp):
-            first = first.values[0]
-        if first is not chg:
-            out.bad(fn, t, '`self._relevance_changed()` is not the first operand: when the earlier operand '
-                    'short-circuits the change is never consumed nor acted on', key='jac-reset-conditional')
-            continue
-        # (2) the rebuild is triggered by the attribute that was reset
-        caches = ('self._jacobian', 'self._jac_wrapper')
+        env0 = {'self.matrix_free': False}
+        cst = astx.stmt_of(chg)
+        if isinstance(cst, ast.Assign) and cst.value is chg and len(cst.targets) == 1 and \
+                isinstance(cst.targets[0], ast.Name):
+            flag = cst.targets[0].id
+            if sum(1 for st in astx.walk_stmts(fn.node.body)
+                   for x in (astx.assigned_targets(st) if isinstance(st, (ast.Assign, ast.AugAssign)) else [])
+                   if isinstance(x, ast.Name) and x.id == flag) != 1:
+                out.unsure(fn, cst, 'the relevance-changed flag is reassigned')
+                continue
+            env0[flag] = True
+        for c in astx.calls(fn.node):
+            if astx.call_name(c) == 'isinstance' and len(c.args) == 2 and astx.mentions(c.args[1], '_ColSparsityJac'):
+                preset[astx.dump(c)] = False
+        resets = [n for n in g.nodes if n.kind == 'stmt' and not n.tag and isinstance(n.ast, ast.Assign)
+                  and isinstance(n.ast.value, ast.Constant) and n.ast.value.value is None
+                  and any(astx.path(x) in caches for x in n.ast.targets)]
+        attrs = {astx.path(x) for n in resets for x in n.ast.targets if astx.path(x) in caches}
         makers = [n for n in g.nodes if n.kind == 'stmt' and not n.tag and isinstance(n.ast, ast.Assign)
                   and any(astx.path(x) == 'self._jacobian' for x in n.ast.targets)
                   and isinstance(n.ast.value, ast.Call)]
-        rebuilt = set()
-        for a in attrs:
-            env = {c: _Computed(True) for c in caches}
-            env[a] = None
-            env['self.matrix_free'] = False
+        if not resets:
+            out.unsure(fn, fn.node, 'no cached jacobian attribute is reset to None')
+            continue
+        chg_nodes = [n for n in g.nodes if not n.tag and any(c is chg for c in n.calls())]
+
+        def walk_cfg(env, avoid=(), want=None):
+            """DFS from entry honouring decidable tests; returns the first node satisfying want, the exit
+            node if it is reached (want None), or None."""
             seen_n = set()
             stack = [g.entry]
             while stack:
                 n = stack.pop()
-                if n in seen_n:
+                if n in seen_n or n in avoid:
                     continue
                 seen_n.add(n)
-                if n in makers:
-                    rebuilt.add(a)
-                    break
-                if n.kind == 'test' and n.ast is not t:
-                    vals = eval_all(n.ast.test, env)
+                if want is not None and want(n):
+                    return n
+                if want is None and (n is g.exit or n in makers):
+                    return n
+                if n.kind == 'test':
+                    vals = eval_all(n.ast.test, env, preset=preset)
                     stack.extend(m for m, lab in g.succ[n]
                                  if (lab == 'true' and True in vals) or (lab == 'false' and False in vals))
                 else:
                     stack.extend(m for m, lab in g.succ[n] if lab != 'exc')
+            return None
+        # (1) changed and not the coloring jacobian  =>  the reset is executed on every path
+        leak = walk_cfg(dict(env0), avoid=set(resets))
+        where = chg_nodes[0].ast if chg_nodes else fn.node
+        if leak is not None:
+            out.bad(fn, where, 'the cached jacobian can be kept although the relevance object/activation changed '
+                    '(the reset also depends on something else, or the change test is short-circuited): '
+                    'sub-jacobians pruned for the previous of/wrt stay missing and the next total derivative '
+                    'silently gets 0 for them', key='jac-reset-conditional')
+            continue
+        # (2) the rebuild is triggered by the attribute that was reset
+        rebuilt = set()
+        for a in attrs:
+            env = dict(env0)
+            env.update({c: _Computed(True) for c in caches})
+            env[a] = None
+            if walk_cfg(env, want=lambda n: n in makers) is not None:
+                rebuilt.add(a)
         if not rebuilt:
-            out.bad(fn, resets[0], f'relevance change resets {sorted(attrs)} but the jacobian is only rebuilt '
+            out.bad(fn, resets[0].ast, f'relevance change resets {sorted(attrs)} but the jacobian is only rebuilt '
                     'when a different attribute is None: the pruned jacobian survives', key='jac-reset-wrong-cache')
             continue
         # (3) approximations pruned for the old relevance are re-established together with the jacobian
         if astx.mentions(fn.node, '_has_approx', '_owns_approx_jac'):
-            env = {c: _Computed(True) for c in caches}
+            env = dict(env0)
+            env.update({c: _Computed(True) for c in caches})
             for a in attrs:
                 env[a] = None
-            env['self.matrix_free'] = False
-            seen_n = set()
-            stack = [g.entry]
-            redo = None
-            while stack:
-                n = stack.pop()
-                if n in seen_n:
-                    continue
-                seen_n.add(n)
-                if n.kind in ('stmt', 'test', 'with', 'iter') and any(
-                        astx.callee_attr(c) in APPROX_REBUILDERS and astx.path(astx.receiver(c)) == 'self'
-                        for c in n.calls()):
-                    redo = n
-                    break
-                if n.kind == 'test':
-                    vals = {True} if n.ast is t else eval_all(n.ast.test, env)
-                    stack.extend(m for m, lab in g.succ[n]
-                                 if (lab == 'true' and True in vals) or (lab == 'false' and False in vals))
-                else:
-                    stack.extend(m for m, lab in g.succ[n] if lab != 'exc')
+            redo = walk_cfg(env, want=lambda n: n.kind in ('stmt', 'test', 'with', 'iter') and any(
+                astx.callee_attr(c) in APPROX_REBUILDERS and astx.path(astx.receiver(c)) == 'self'
+                for c in n.calls()))
             if redo is None:
-                out.bad(fn, t, 'after a relevance change a fresh jacobian is built but the approximations of this '
+                out.bad(fn, where, 'after a relevance change a fresh jacobian is built but the approximations of this '
                         'system (approx keys / wrt set / approximation scheme, pruned by is_relevant for the '
                         'PREVIOUS of/wrt) are not set up again, unlike in the component siblings '
                         '(_add_approximations): columns that were irrelevant before are never perturbed and '
                         'come out as 0', key='approx-not-rebuilt')
                 continue
-        out.ok(fn, t, f'relevance change => {sorted(rebuilt)} = None => jacobian (and approximations) rebuilt')
+        out.ok(fn, where, f'relevance change => {sorted(rebuilt)} = None => jacobian (and approximations) rebuilt')
 
     fn = repo.func(SYSTEM, 'System._relevance_changed')
     g = cfgm.build(fn)
@@ -1487,7 +1482,7 @@ def _bound_only_inside(fn, loop):
     return inside - outside
 
 
-@rule('C24.seedcover', floor=3)
+@rule('C24.seedcover', floor=5)
 def seedcover(repo, out):
     """The seeds an approximation group activates cover every variable the group perturbs: per-wrt groups carry that wrt, the combined (reverse-directional) group carries the accumulated wrts, and the consumer activates exactly that slot."""
     fn = repo.func(APPROX, 'ApproximationScheme._init_approximations')
@@ -1609,6 +1604,81 @@ def seedcover(repo, out):
                     'approx group', key='approx-seeds-wrong-slot')
         else:
             out.unsure(cf, c, 'fwd_seeds argument does not come from the approx group')
+    _colored_seedcover(repo, out)
+
+
+def _colored_seedcover(repo, out):
+    """Colored approximation groups: the seeds slot covers every column of the color."""
+    cf = repo.func(APPROX, 'ApproximationScheme._colored_column_iter')
+    cg = cfgm.build(cf)
+    loops = [st for st in astx.walk_stmts(cf.node.body) if isinstance(st, ast.For) and
+             isinstance(st.target, ast.Tuple) and len(st.target.elts) >= 4 and
+             any(astx.callee_attr(c) == 'seeds_active' for c in astx.calls(st))]
+    if len(loops) != 1:
+        out.unsure(cf, cf.node, 'loop unpacking the colored approx groups not found')
+        return
+    names = [astx.path(e) for e in loops[0].target.elts]
+    acts = [c for c in astx.calls(loops[0]) if astx.callee_attr(c) == 'seeds_active']
+    slot = None
+    for c in acts:
+        e = astx.arg(c, 0, 'fwd_seeds')
+        if isinstance(e, ast.Name) and e.id in names:
+            slot = names.index(e.id)
+            out.ok(cf, c, f'seeds_active receives slot {slot} (`{e.id}`) of the colored group')
+        else:
+            out.unsure(cf, c, 'fwd_seeds of the colored run is not a slot of the group')
+    if slot is None:
+        return
+    fn = repo.func(APPROX, 'ApproximationScheme._init_colored_approximations')
+    g = cfgm.build(fn)
+    rd = cfgm.ReachingDefs(g)
+    apps = [st for st in astx.walk_stmts(fn.node.body) if isinstance(st, ast.Expr) and
+            isinstance(st.value, ast.Call) and astx.call_name(st.value) == 'self._colored_approx_groups.append'
+            and len(st.value.args) == 1 and isinstance(st.value.args[0], ast.Tuple)
+            and len(st.value.args[0].elts) == len(names)]
+    if len(apps) != 1:
+        out.unsure(fn, fn.node, 'append of the colored group tuple not found')
+        return
+    st = apps[0]
+    loop = astx.enclosing(st, (ast.For,))
+    tg = [t for t in astx.assigned_targets(loop) if isinstance(t, ast.Name)] if loop is not None else []
+    if not tg:
+        out.unsure(fn, st, 'color loop not recognised')
+        return
+    cols = tg[0].id
+    node = g.nodes_of(st)[0]
+
+    def scan(e, at, depth=0):
+        """(derives from cols, partial-use node or None) of expression e, following local definitions."""
+        derives, partial = False, None
+        for w in astx.walk(e):
+            if not isinstance(w, ast.Name):
+                continue
+            if w.id == cols:
+                derives = True
+                if isinstance(w._parent, ast.Subscript) and w._parent.value is w:
+                    partial = partial or (w._parent, e)
+            elif depth < 3:
+                for d in rd.defs(at, w.id):
+                    if d.kind == 'stmt' and isinstance(d.ast, ast.Assign) and len(d.ast.targets) == 1 and \
+                            astx.path(d.ast.targets[0]) == w.id:
+                        dd, pp = scan(d.ast.value, d, depth + 1)
+                        derives = derives or dd
+                        partial = partial or pp
+        return derives, partial
+    slot_e = st.value.args[0].elts[slot]
+    derives, partial = scan(slot_e, node)
+    if partial:
+        sub, e = partial
+        out.bad(fn, astx.stmt_of(e) or st, f'the seeds of a color group are `{astx.src(e)}`: only part of '
+                f'`{cols}` ({astx.src(sub)}) is turned into seeds while every column of the '
+                'color is perturbed in the same run: systems relevant only to the other columns are not '
+                're-run and their derivatives come out as 0', key='color-seeds-partial')
+        return
+    if not derives:
+        out.unsure(fn, st, f'seed slot `{astx.src(slot_e)}` does not derive from the color columns `{cols}`')
+        return
+    out.ok(fn, st, f'seeds derive from all columns `{cols}` of the color')
 
 
 PHASE_SET = {'pre': '_pre_components', 'post': '_post_components'}
@@ -1764,21 +1834,46 @@ def statecoupling(repo, out):
                     isinstance(w.comparators[0], ast.Constant) and w.comparators[0].value is None and \
                     isinstance(w.left, ast.Name):
                 env[w.left.id] = _Computed(True)
-        # `for type_ in ('output', 'input'): for wrt in names[type_]` : the state case is type_ == 'output'
         lp = loopvars.get(wrt)
         if lp is not None and isinstance(lp.iter, ast.Subscript) and isinstance(lp.iter.slice, ast.Name) and \
                 lp.iter.slice.id in loopvars:
             env[lp.iter.slice.id] = 'output'
         vals = eval_all(st.test, env, preset=preset)
-        # does the true branch drop the key (continue / irrelevant list) ?
-        drops_true = any(isinstance(b, ast.Continue) for b in st.body) or \
-            any(astx.mentions(b, 'irrelevant_subjacs') for b in st.body)
-        if not drops_true:
+        # second obligation: in an implicit system a residual row feeds every coupled state, so a key
+        # must not be dropped merely because its `of` is irrelevant (wrt an input that IS relevant)
+        of_calls = [c for c in cs if astx.path(c.args[0]) != wrt]
+        wrt_calls = [c for c in cs if astx.path(c.args[0]) == wrt]
+        preset2 = dict(preset)
+        for c in wrt_calls:
+            preset2[astx.dump(c)] = True
+        for w in astx.walk(st.test):
+            if isinstance(w, ast.Compare) and astx.dump(w) in preset2 and isinstance(w.ops[0], (ast.In, ast.NotIn)):
+                preset2[astx.dump(w)] = not preset[astx.dump(w)]       # now wrt is an input
+        env2 = dict(env)
+        if lp is not None and isinstance(lp.iter, ast.Subscript) and isinstance(lp.iter.slice, ast.Name) and \
+                lp.iter.slice.id in loopvars:
+            env2[lp.iter.slice.id] = 'input'
+        env2['self._is_explicitcomp'] = False
+        vals_of = eval_all(st.test, env2, preset=preset2) if of_calls else None
+        # which branch drops the key (continue / irrelevant list) ?
+        def drops(body):
+            return any(isinstance(b, ast.Continue) or astx.mentions(b, 'irrelevant_subjacs') for b in body)
+        dt, df = drops(st.body), drops(st.orelse)
+        if dt == df:
             out.unsure(fn, st, 'pruning branch not recognised')
             continue
-        if vals == {False}:
-            out.ok(fn, st, f'a key whose `{wrt}` is a state is never pruned')
-        elif vals == {True}:
+        keep = {False} if dt else {True}
+        if vals == keep and vals_of is not None and vals_of != keep:
+            if len(vals_of) == 1:
+                out.bad(fn, st, f'in an implicit system a key (of, {wrt}) with a relevant input `{wrt}` is dropped '
+                        'because `of` (a state/residual of this system) is not itself on a dv -> response path: '
+                        'the residual still drives the coupled states, so the input never enters the linear '
+                        'solve and the total derivative is 0', key='implicit-row-pruned')
+            else:
+                out.unsure(fn, st, 'pruning on is_relevant(of) depends on atoms that are not recognised')
+        elif vals == keep:
+            out.ok(fn, st, f'a key whose `{wrt}` is a state is never pruned; rows of implicit systems are kept')
+        elif len(vals) == 1:
             out.bad(fn, st, f'a sub-jacobian (of, {wrt}) is dropped when is_relevant({wrt}) or is_relevant(of) '
                     f'is False even if `{wrt}` is a state of this very system: variable relevance comes from a '
                     'graph without state -> state edges, so a coupled state that is not itself on a dv -> '
@@ -1786,6 +1881,36 @@ def statecoupling(repo, out):
                     'relevance on) returns wrong totals', key='state-partials-pruned')
         else:
             out.unsure(fn, st, 'pruning test contains atoms that are not recognised')
+
+
+COMPONENT = 'openmdao/core/component.py'
+
+
+@rule('C24.schemes', floor=1)
+def schemes(repo, out):
+    """Re-adding the approximations of a component after a relevance change can bring back every declared method: the registry the rebuild reads (_approx_schemes keys) is never shrunk by relevance pruning."""
+    fn = repo.func(COMPONENT, 'Component._add_approximations')
+    reads = [st for st in astx.walk_stmts(fn.node.body) if isinstance(st, ast.Assign) and
+             isinstance(st.value, ast.Call) and astx.call_name(st.value) in ('list', 'tuple', 'sorted', 'set')
+             and st.value.args and astx.path(st.value.args[0]) == 'self._approx_schemes']
+    dels = [st for st in astx.walk_stmts(fn.node.body) if
+            (isinstance(st, ast.Delete) and any(isinstance(t, ast.Subscript) and
+                                                astx.path(t.value) == 'self._approx_schemes' for t in st.targets))
+            or (isinstance(st, ast.Expr) and isinstance(st.value, ast.Call) and
+                astx.call_name(st.value) in ('self._approx_schemes.pop', 'self._approx_schemes.clear'))]
+    if not reads:
+        if dels:
+            out.unsure(fn, dels[0], 'schemes are deleted but the registry of declared methods is not recognised')
+        else:
+            out.ok(fn, fn.node, 'no scheme is deleted')
+        return
+    if dels:
+        out.bad(fn, dels[0], 'the set of methods to re-create is read from self._approx_schemes '
+                f'(`{astx.src(reads[0])}`, also the filter of _approx_subjac_keys_iter) but schemes left empty by '
+                'relevance pruning are deleted from it: when the relevance changes the declared fd/cs partials of '
+                'that method are never approximated again and come out as 0', key='scheme-registry-shrunk')
+    else:
+        out.ok(fn, reads[0], 'declared methods survive a rebuild under any relevance')
 
 
 # =========================================================================== sweeps
@@ -2671,6 +2796,25 @@ selftest(
          "            redo = self._owns_approx_jac and self.pathname and not self._first_call_to_linearize\n            if redo:\n                self._clear_jac_caches()\n                self._setup_approx_derivs()\n"),
     Twin('twin-statecoupling-in-inputs', JACOBIAN, "if relevance is not None and wrt not in out_slices and \\", "if relevance is not None and wrt in in_slices and \\",
          also=[(JACOBIAN, "if relevance is not None and type_ == 'input' and \\", "if relevance is not None and type_ != 'output' and \\")]),
+    # ---- second robustness round shapes
+    Twin('twin-jacreset-expl-nested-early-return', EXPL, '        if self._relevance_changed() and not isinstance(self._jacobian, _ColSparsityJac):\n            self._jacobian = None\n\n        if not self.matrix_free and self._jacobian is None:\n            self._jacobian = ExplicitDictionaryJacobian(self)\n            if self._has_approx:\n                self._get_static_wrt_matches()\n                self._add_approximations(use_relevance=use_relevance)\n\n        return self._jacobian\n', '        if self._relevance_changed():\n            if not isinstance(self._jacobian, _ColSparsityJac):\n                self._jacobian = None\n\n        if self.matrix_free or self._jacobian is not None:\n            return self._jacobian\n\n        self._jacobian = ExplicitDictionaryJacobian(self)\n        if self._has_approx:\n            self._get_static_wrt_matches()\n            self._add_approximations(use_relevance=use_relevance)\n\n        return self._jacobian\n'),
+    Mutant('jacreset-expl-nested-extra-cond', EXPL, '        if self._relevance_changed() and not isinstance(self._jacobian, _ColSparsityJac):\n            self._jacobian = None\n\n        if not self.matrix_free and self._jacobian is None:\n            self._jacobian = ExplicitDictionaryJacobian(self)\n            if self._has_approx:\n                self._get_static_wrt_matches()\n                self._add_approximations(use_relevance=use_relevance)\n\n        return self._jacobian\n', '        if self._relevance_changed():\n            if self._has_approx and not isinstance(self._jacobian, _ColSparsityJac):\n                self._jacobian = None\n\n        if self.matrix_free or self._jacobian is not None:\n            return self._jacobian\n\n        self._jacobian = ExplicitDictionaryJacobian(self)\n        if self._has_approx:\n            self._get_static_wrt_matches()\n            self._add_approximations(use_relevance=use_relevance)\n\n        return self._jacobian\n', 'C24.jacreset'),
+    Mutant('jacreset-expl-early-return-wrong-cache', EXPL, '        if self._relevance_changed() and not isinstance(self._jacobian, _ColSparsityJac):\n            self._jacobian = None\n\n        if not self.matrix_free and self._jacobian is None:\n            self._jacobian = ExplicitDictionaryJacobian(self)\n            if self._has_approx:\n                self._get_static_wrt_matches()\n                self._add_approximations(use_relevance=use_relevance)\n\n        return self._jacobian\n', '        if self._relevance_changed():\n            if not isinstance(self._jacobian, _ColSparsityJac):\n                self._jac_wrapper = None\n\n        if self.matrix_free or self._jacobian is not None:\n            return self._jacobian\n\n        self._jacobian = ExplicitDictionaryJacobian(self)\n        if self._has_approx:\n            self._get_static_wrt_matches()\n            self._add_approximations(use_relevance=use_relevance)\n\n        return self._jacobian\n', 'C24.jacreset'),
+    Twin('twin-jacreset-impl-flag', IMPL, '        if self._relevance_changed() and not isinstance(self._jacobian, _ColSparsityJac):\n            self._jac_wrapper = None\n', '        relevance_changed = self._relevance_changed()\n        if relevance_changed and not isinstance(self._jacobian, _ColSparsityJac):\n            self._jac_wrapper = None\n'),
+    Mutant('jacreset-impl-flag-weakened', IMPL, '        if self._relevance_changed() and not isinstance(self._jacobian, _ColSparsityJac):\n            self._jac_wrapper = None\n', '        relevance_changed = self._relevance_changed() and self._has_approx\n        if relevance_changed and not isinstance(self._jacobian, _ColSparsityJac):\n            self._jac_wrapper = None\n', 'C24.jacreset'),
+    Twin('twin-statecoupling-inverted', JACOBIAN, '                    if of in out_slices and (wrt in in_slices or wrt in out_slices):\n                        # the dataflow graph has no state -> state edges inside a system, so variable\n                        # relevance says nothing about partials wrt a state: never prune those.\n                        if relevance is not None and wrt not in out_slices and \\\n                                (not is_relevant(wrt) or not is_relevant(of)):\n                            irrelevant_subjacs.append((key, meta, dtype))\n                        else:\n                            relevant_subjacs.append((key, meta, dtype))\n', '                    if of not in out_slices or not (wrt in in_slices or wrt in out_slices):\n                        continue\n\n                    info = (key, meta, dtype)\n                    if relevance is None or wrt in out_slices or \\\n                            (is_relevant(wrt) and is_relevant(of)):\n                        relevant_subjacs.append(info)\n                    else:\n                        irrelevant_subjacs.append(info)\n'),
+    Mutant('statecoupling-inverted-no-state-clause', JACOBIAN, '                    if of in out_slices and (wrt in in_slices or wrt in out_slices):\n                        # the dataflow graph has no state -> state edges inside a system, so variable\n                        # relevance says nothing about partials wrt a state: never prune those.\n                        if relevance is not None and wrt not in out_slices and \\\n                                (not is_relevant(wrt) or not is_relevant(of)):\n                            irrelevant_subjacs.append((key, meta, dtype))\n                        else:\n                            relevant_subjacs.append((key, meta, dtype))\n', '                    if of not in out_slices or not (wrt in in_slices or wrt in out_slices):\n                        continue\n\n                    info = (key, meta, dtype)\n                    if relevance is None or \\\n                            (is_relevant(wrt) and is_relevant(of)):\n                        relevant_subjacs.append(info)\n                    else:\n                        irrelevant_subjacs.append(info)\n', 'C24.statecoupling'),
+    Mutant('seedcover-color-first-column', APPROX, "                seed_vars = tuple(rangemapper.inds2keys(cols))", "                seed_vars = (rangemapper[cols[0]],)", 'C24.seedcover'),
+    Mutant('seedcover-color-slice', APPROX, "                seed_vars = tuple(rangemapper.inds2keys(cols))", "                seed_vars = tuple(rangemapper.inds2keys(cols[:1]))", 'C24.seedcover'),
+    Twin('twin-seedcover-color-set', APPROX, "                seed_vars = tuple(rangemapper.inds2keys(cols))", "                keys = rangemapper.inds2keys(cols)\n                seed_vars = tuple(keys)"),
+    # ---- third round findings: repaired shapes must be accepted
+    Twin('twin-statecoupling-of-only-explicit', JACOBIAN, "                                (not is_relevant(wrt) or not is_relevant(of)):\n                            irrelevant_subjacs",
+         "                                (not is_relevant(wrt) or\n                                 (self._is_explicitcomp and not is_relevant(of))):\n                            irrelevant_subjacs",
+         also=[(JACOBIAN, "                                            (not is_relevant(wrt) or not is_relevant(of)):\n                                        continue",
+                "                                            (not is_relevant(wrt) or\n                                             (self._is_explicitcomp and not is_relevant(of))):\n                                        continue")]),
+    Mutant('schemes-prefix-shape-delete-empty', COMPONENT, "        # relevance changes.\n", "        # relevance changes.\n        to_remove = [name for name, scheme in self._approx_schemes.items() if not scheme._wrt_meta]\n        for name in to_remove:\n            del self._approx_schemes[name]\n", 'C24.schemes'),
+    Mutant('schemes-pop-empty', COMPONENT, "        # relevance changes.\n", "        # relevance changes.\n        for name in [n for n, sch in self._approx_schemes.items() if not sch]:\n            self._approx_schemes.pop(name)\n", 'C24.schemes'),
+    Twin('twin-schemes-local-copy', COMPONENT, "        methods = list(self._approx_schemes)\n", "        methods = sorted(self._approx_schemes)\n"),
     Twin('twin-gate-local-flag', GROUP, "            with relevance.active(self._linear_solver.use_relevance()):\n                subs = list(",
          "            prune = self._linear_solver.use_relevance()\n            with relevance.active(prune):\n                subs = list("),
 )
